@@ -391,6 +391,35 @@ def rule_call(ctx):
            'keyword arguments map by name', call.node, mod)
 
 
+def rule_index_monotone(ctx):
+    ctx.rule('C04.ctl', 'within a build the running index equals the number of control values created so far (_control_index == len(_controls)): '
+                        'it is set to 0 where a build starts and otherwise only advanced together with _controls.extend; nothing sets it back '
+                        '(the control units of a wrapped function that failed stay in the graph and keep their slots)')
+    n = 0
+    for fi in sorted(ctx.repo.functions.values(), key=lambda f: f.fq):
+        if not fi.module.name.startswith('sc3.synth') or fi.module.name == 'sc3.synth.synthdesc':
+            continue      # the description reader fills a definition from bytes, it is not a build
+        for x in walk_local(fi.node):
+            if not isinstance(x, (ast.Assign, ast.AugAssign, ast.AnnAssign, ast.Delete)):
+                continue
+            tg = x.targets if isinstance(x, (ast.Assign, ast.Delete)) else [x.target]
+            for t in tg:
+                base = t.value if isinstance(t, ast.Subscript) else t
+                if not (isinstance(base, ast.Attribute) and base.attr in ('_control_index', '_controls')):
+                    continue
+                n += 1
+                if base.attr == '_control_index':
+                    ok = (isinstance(x, ast.Assign) and U.literal(x.value) == 0 and isinstance(t, ast.Attribute)) or \
+                         (isinstance(x, ast.AugAssign) and isinstance(x.op, ast.Add) and norm(x.value).startswith('len('))
+                else:
+                    ok = isinstance(x, ast.Assign) and isinstance(t, ast.Attribute) and norm(x.value) in ('[]', 'list()', 'None')   # None: the placeholder definition of _dummy
+                ctx.ob('C04.ctl', f'{fi.fq}:{norm(x)[:60]}:index-only-grows', ok,
+                       f'`{norm(x)[:80]}` in {fi.qualname}: the running control index / value list may only be reset where a build starts and '
+                       f'grown by the control units; set back, the names declared afterwards point at slots of earlier units while the body is '
+                       f'wired by len(_controls)', x, fi.module)
+    ctx.require(n >= 5, 'C04.ctl', f'only {n} stores to _control_index/_controls found')
+
+
 def run(ctx):
     from .. import beliefs
     ctx.rule('C04.absent', 'only None means that rates/prepend/metadata/variants were not given: a falsy value that is a legitimate argument (prepend=0) is kept')
@@ -399,6 +428,7 @@ def run(ctx):
     ctx.ob('C04.absent', f'{i.fq}:prepend', '[] if prepend is None else prepend' in full(i.node), 'prepend defaults to [] only when it is None', i.node, i.module)
     rule_groups(ctx)
     rule_ctl(ctx)
+    rule_index_monotone(ctx)
     rule_names(ctx)
     rule_rates(ctx)
     rule_call(ctx)
@@ -406,6 +436,9 @@ def run(ctx):
 
 
 MUTANTS = [
+    dict(rule='C04.ctl', name='a failed wrapped function resets the running index but keeps its control units (seed C04-i)', file='sc3/synth/synthdef.py',
+         old="        self._args_to_controls(func, rates, len(prepend))\n        result = func(*(prepend + self._build_controls()))\n        self._control_names = save_ctl_names\n",
+         new="        save_ctl_index = self._control_index\n        try:\n            self._args_to_controls(func, rates, len(prepend))\n            result = func(*(prepend + self._build_controls()))\n        except Exception:\n            self._control_index = save_ctl_index\n            raise\n        finally:\n            self._control_names = save_ctl_names\n"),
     dict(rule='C04.groups', name='lag list appended whole for a one-slot parameter (fix reverted)', file='sc3/synth/synthdef.py',
          old="                # One lag per slot, also for a lag list on a single slot.\n                lags.extend(utl.wrap_extend(utl.as_list(cn.lag), valsize))\n",
          new="                if valsize > 1:\n                    lags.extend(utl.wrap_extend(utl.as_list(cn.lag), valsize))\n                else:\n                    lags.append(cn.lag)\n"),
